@@ -300,8 +300,12 @@ theorem repGreedyGen_sound {child : Gen} {R : Nat → Nat → Prop} (hc : GenSou
         exact hfirst hb0 _ _
     · apply Step.All.force
       apply Step.All.mono hmono
-      refine greedyNode_sound hc min bound p _ 1 _ 0 p _ (.zero p) ⟨.inr ⟨rfl, hmin⟩, by omega, ?_⟩
-      intro j hj; simp only [Option.some.injEq] at hj; omega
+      apply Step.All.append
+      · refine greedyNode_sound hc min bound p _ 1 _ 0 p _ (.zero p) ⟨.inr ⟨rfl, hmin⟩, by omega, ?_⟩
+        intro j hj; simp only [Option.some.injEq] at hj; omega
+      · intro st2
+        refine greedyNode_sound hc min bound p _ 1 _ 0 p _ (.zero p) ⟨.inr ⟨rfl, hmin⟩, by omega, ?_⟩
+        intro j hj; simp at hj
   · split
     · exact .nil _
     · rename_i hb0
